@@ -132,6 +132,16 @@ Fixpoint groups_ok (gs : list group) : bool :=
   | g :: rest => group_ok false g && groups_ok rest
   end.
 
+Lemma group_ok_inv b g : group_ok b g = true ->
+  fst g <> [] /\ forallb (fun l => negb (is_blank l)) (fst g) = true /\ forallb is_blank (snd g) = true
+  /\ (b = true \/ snd g <> []).
+Proof.
+  unfold group_ok. intros H. apply andb_true_iff in H as [H D]. apply andb_true_iff in H as [H C]. apply andb_true_iff in H as [A B].
+  repeat split; try assumption.
+  - destruct (fst g); [discriminate|discriminate].
+  - destruct b; [left; reflexivity|right]. cbn [orb] in D. destruct (snd g); [discriminate|discriminate].
+Qed.
+
 Lemma groups_ok_cons g gs : groups_ok (g :: gs) = true ->
   group_ok (match gs with [] => true | _ => false end) g = true /\ groups_ok gs = true.
 Proof. destruct gs as [|g2 gs]; cbn [groups_ok]; [intros H; split; [exact H|reflexivity]|]. intros H. apply andb_true_iff in H. exact H. Qed.
@@ -139,28 +149,28 @@ Proof. destruct gs as [|g2 gs]; cbn [groups_ok]; [intros H; split; [exact H|refl
 Lemma groups_head_not_blank gs : groups_ok gs = true ->
   match flat_map group_lines gs with l :: _ => is_blank l = false | [] => True end.
 Proof.
-  destruct gs as [|g gs]; [trivial|]. intros H. apply groups_ok_cons in H as [H _].
-  unfold group_ok in H. repeat (apply andb_true_iff in H as [H ?]).
-  cbn [flat_map]. unfold group_lines at 1. destruct (fst g) as [|l r]; [discriminate|].
-  cbn [forallb] in H1. apply andb_true_iff in H1 as [H1 _]. apply negb_true_iff in H1. exact H1.
+  intros H. destruct gs as [|g gs]; [exact I|]. apply groups_ok_cons in H as [H _].
+  apply group_ok_inv in H as (A & B & C & D).
+  cbn [flat_map]. unfold group_lines at 1. destruct (fst g) as [|l r]; [congruence|].
+  cbn [forallb] in B. apply andb_true_iff in B as [B _]. apply negb_true_iff in B. exact B.
 Qed.
 
 Lemma parse_block_group head g rest : forallb is_blank head = true -> group_ok (match rest with [] => true | _ => false end) g = true ->
   match rest with l :: _ => is_blank l = false | [] => True end ->
   parse_block (head ++ fst g ++ snd g ++ rest) = (Some (head ++ fst g ++ snd g), rest).
 Proof.
-  intros Hh Hg Hr. unfold group_ok in Hg. repeat (apply andb_true_iff in Hg as [Hg ?]).
+  intros Hh Hg Hr. apply group_ok_inv in Hg as (A & B & C & D).
   unfold parse_block.
   assert (S0 : match fst g ++ snd g ++ rest with l :: _ => is_blank l = false | [] => True end).
-  { destruct (fst g) as [|l r]; [discriminate|]. cbn [forallb] in H1. apply andb_true_iff in H1 as [H1 _]. apply negb_true_iff in H1. exact H1. }
+  { destruct (fst g) as [|l r]; [congruence|]. cbn [forallb] in B. apply andb_true_iff in B as [B _]. apply negb_true_iff in B. exact B. }
   rewrite (take_blank_app head _ Hh S0).
   assert (B0 : match snd g ++ rest with l :: _ => is_blank l = true | [] => True end).
   { destruct (snd g) as [|l r] eqn:E.
-    - cbn [app]. destruct rest as [|l r]; [trivial|]. cbn in H. discriminate.
-    - cbn [forallb] in H0. apply andb_true_iff in H0 as [H0 _]. exact H0. }
-  rewrite (take_significant_app (fst g) _ H1 B0).
-  destruct (fst g) as [|l r] eqn:E; [discriminate|].
-  rewrite (take_blank_app (snd g) rest H0 Hr). rewrite <- E. reflexivity.
+    - cbn [app]. destruct rest as [|l r]; [trivial|]. destruct D; congruence.
+    - cbn [forallb] in C. apply andb_true_iff in C as [C _]. exact C. }
+  rewrite (take_significant_app (fst g) _ B B0).
+  destruct (fst g) as [|l r] eqn:E; [congruence|].
+  rewrite (take_blank_app (snd g) rest C Hr). rewrite <- E. reflexivity.
 Qed.
 
 Lemma parse_block_blank head : forallb is_blank head = true -> parse_block head = (None, []).
@@ -174,7 +184,7 @@ Proof.
   destruct (groups_ok (g :: gs)) eqn:E; [|right; reflexivity]. left.
   apply groups_ok_cons in E as [Hg Hgs]. destruct IH as [IH|IH]; [|congruence].
   cbn [flat_map length]. rewrite app_length. unfold group_lines at 1. rewrite app_length.
-  unfold group_ok in Hg. repeat (apply andb_true_iff in Hg as [Hg ?]). apply negb_true_iff in Hg. apply Nat.eqb_neq in Hg. lia.
+  apply group_ok_inv in Hg as (A & _). destruct (fst g); [congruence|]. cbn [length]. lia.
 Qed.
 
 (* B: the blocks of the lines of a document *)
@@ -187,18 +197,193 @@ Proof.
     rewrite (parse_block_blank head Hh). reflexivity.
   - destruct (groups_ok_cons g gs Hg) as [Hg1 Hgs].
     cbn [flat_map expect_blocks]. unfold group_lines at 1.
-    destruct fuel as [|k].
-    { exfalso. rewrite !app_length in Hf. unfold group_ok in Hg1. repeat (apply andb_true_iff in Hg1 as [Hg1 ?]).
-      apply negb_true_iff in Hg1. apply Nat.eqb_neq in Hg1. lia. }
+    cbn [flat_map] in Hf. unfold group_lines at 1 in Hf. rewrite !app_length in Hf.
+    assert (Hne : (1 <= length (fst g))%nat).
+    { apply group_ok_inv in Hg1 as (A & _). destruct (fst g); [congruence|]. cbn [length]. lia. }
+    destruct fuel as [|k]; [exfalso; lia|].
     cbn [blocks_fuel]. rewrite <- !app_assoc.
     rewrite (parse_block_group head g (flat_map group_lines gs) Hh).
     + f_equal. rewrite <- (app_nil_l (flat_map group_lines gs)). apply (IH Hgs k _ [] eq_refl).
-      cbn [app]. rewrite !app_length in Hf. rewrite <- !app_assoc, !app_length in Hf.
-      unfold group_ok in Hg1. repeat (apply andb_true_iff in Hg1 as [Hg1 ?]).
-      apply negb_true_iff in Hg1. apply Nat.eqb_neq in Hg1. lia.
+      cbn [app]. lia.
     + destruct gs as [|g2 gs']; [exact Hg1|].
       cbn [flat_map]. unfold group_lines at 1.
-      destruct (groups_ok_cons g2 gs' Hgs) as [Hg2 _]. unfold group_ok in Hg2. repeat (apply andb_true_iff in Hg2 as [Hg2 ?]).
-      destruct (fst g2) as [|l r]; [discriminate|]. exact Hg1.
+      destruct (groups_ok_cons g2 gs' Hgs) as [Hg2 _]. apply group_ok_inv in Hg2 as (A2 & _).
+      destruct (fst g2) as [|l r]; [congruence|]. exact Hg1.
     + apply groups_head_not_blank. exact Hgs.
+Qed.
+
+(* ================= the lines of a document ================= *)
+
+Lemma no_lf_encode t : text_ok t = true -> no_lf (utf8_encode t) = true.
+Proof.
+  induction t as [|c t IH]; [reflexivity|]. cbn [text_ok forallb]. intros H. apply andb_true_iff in H as [Hc Ht].
+  unfold utf8_encode. cbn [flat_map]. fold (utf8_encode t). unfold no_lf in *. rewrite forallb_app, (IH Ht), andb_true_r.
+  destruct (encode_rune_bytes c) as [[Hlt ->] | [Hge Hb]].
+  - cbn [forallb]. apply andb_true_iff in Hc as [_ Hc]. rewrite Hc. reflexivity.
+  - rewrite forallb_forall. intros b Hin. rewrite Forall_forall in Hb. specialize (Hb b Hin). lia.
+Qed.
+
+Lemma blank_text_ok t : blank_text t = true -> text_ok t = true.
+Proof. apply forallb_impl. intros c. unfold scalar. lia. Qed.
+
+Lemma map_l_text_attach crlf final ts : forall i, map l_text (attach crlf final i ts) = map utf8_encode ts.
+Proof.
+  induction ts as [|t ts IH]; intros i; [reflexivity|].
+  destruct ts as [|t2 ts']; [reflexivity|].
+  change (attach crlf final i (t :: t2 :: ts')) with
+    ({| l_text := utf8_encode t; l_ending := ending (crlf i) |} :: attach crlf final (S i) (t2 :: ts')).
+  cbn [map l_text]. rewrite (IH (S i)). reflexivity.
+Qed.
+
+Lemma ending_ok b t : line_unambiguous {| l_text := t; l_ending := ending b |} = true -> no_lf t = true ->
+  line_ok false {| l_text := t; l_ending := ending b |} = true.
+Proof.
+  unfold line_unambiguous, line_ok. cbn [l_text l_ending]. intros U N. rewrite N. destruct b; cbn [ending] in *; [reflexivity|].
+  rewrite U. reflexivity.
+Qed.
+
+Lemma line_ok_weaken l : line_ok false l = true -> line_ok true l = true.
+Proof.
+  unfold line_ok. intros H. apply andb_true_iff in H as [H1 H2]. rewrite H1.
+  destruct (l_ending l) as [|e1 [|e2 [|e3 r]]]; try discriminate; exact H2.
+Qed.
+
+Lemma lines_ok_attach crlf final ts : forallb text_ok ts = true -> forall i,
+  forallb line_unambiguous (attach crlf final i ts) = true -> lines_ok (attach crlf final i ts) = true.
+Proof.
+  induction ts as [|t ts IH]; intros T i U; [reflexivity|].
+  cbn [forallb] in T. apply andb_true_iff in T as [Tt T].
+  destruct ts as [|t2 ts'].
+  - cbn [attach lines_ok forallb] in *. rewrite andb_true_r in U.
+    destruct final.
+    + apply line_ok_weaken, ending_ok; [exact U|apply no_lf_encode; exact Tt].
+    + unfold line_ok, line_unambiguous in *. cbn [l_text l_ending] in *. rewrite (no_lf_encode _ Tt), U. reflexivity.
+  - change (attach crlf final i (t :: t2 :: ts')) with
+      ({| l_text := utf8_encode t; l_ending := ending (crlf i) |} :: attach crlf final (S i) (t2 :: ts')) in *.
+    cbn [forallb] in U. apply andb_true_iff in U as [U1 U2].
+    assert (R : lines_ok (attach crlf final (S i) (t2 :: ts')) = true) by (apply IH; assumption).
+    destruct (attach crlf final (S i) (t2 :: ts')) as [|l2 r2] eqn:E.
+    + destruct ts'; discriminate.
+    + change (lines_ok (?a :: l2 :: r2)) with (line_ok false a && lines_ok (l2 :: r2)).
+      rewrite R, andb_true_r. apply ending_ok; [exact U1|apply no_lf_encode; exact Tt].
+Qed.
+
+Lemma record_texts_ok r : wf_record r = true -> forallb text_ok (record_texts r) = true.
+Proof.
+  intros W. destruct (wf_record_inv r W) as (Wd & Ws & Wt & Wsum & Went & _).
+  unfold record_texts. cbn [forallb]. rewrite (headline_text_ok r W). cbn [andb].
+  rewrite forallb_app. apply andb_true_iff; split.
+  - revert Wsum. apply forallb_impl. intros t H. unfold summary_line_ok in H. apply andb_true_iff in H as [H _]. exact H.
+  - rewrite forallb_forall. intros t Hin. apply in_flat_map in Hin as (e & He & Hin).
+    rewrite forallb_forall in Went. specialize (Went e He).
+    unfold entry_texts in Hin. destruct Hin as [<- | Hin].
+    + apply (entry_line_text_ok (sr_indent r) e Went).
+    + apply in_map_iff in Hin as (t' & <- & Hin).
+      unfold wf_entry in Went. apply andb_true_iff in Went as [_ Wm]. rewrite forallb_forall in Wm. specialize (Wm t' Hin).
+      apply andb_true_iff in Wm as [Tok _]. rewrite !text_ok_app, Tok.
+      replace (text_ok (indent_text (sr_indent r))) with true by (destruct (sr_indent r); reflexivity). reflexivity.
+Qed.
+
+Lemma doc_texts_ok d : wf d -> forallb text_ok (doc_texts d) = true.
+Proof.
+  unfold wf, wf_doc. intros W. apply andb_true_iff in W as [W _]. apply andb_true_iff in W as [W G]. apply andb_true_iff in W as [Wl Wr].
+  unfold doc_texts. rewrite forallb_app. apply andb_true_iff; split.
+  - revert Wl. apply forallb_impl. exact blank_text_ok.
+  - clear Wl. induction (do_records d) as [|rg recs IH]; [reflexivity|].
+    cbn [forallb] in Wr. apply andb_true_iff in Wr as [Wr1 Wr].
+    assert (Gb : forallb blank_text (snd rg) = true /\ gaps_ok recs = true).
+    { destruct recs as [|rg2 recs']; cbn [gaps_ok] in G; [split; [exact G|reflexivity]|].
+      apply andb_true_iff in G as [G G2]. apply andb_true_iff in G as [G _]. split; assumption. }
+    destruct Gb as [Gb G'].
+    cbn [flat_map]. rewrite !forallb_app, (record_texts_ok _ Wr1), (IH Wr G'), andb_true_r. cbn [andb].
+    revert Gb. apply forallb_impl. exact blank_text_ok.
+Qed.
+
+(* ================= groups of a document ================= *)
+
+Definition group_of (g : group) (rg : s_record * list text) : Prop :=
+  map l_text (fst g) = map utf8_encode (record_texts (fst rg)) /\ map l_text (snd g) = map utf8_encode (snd rg).
+
+Lemma split_groups recs : forall L,
+  map l_text L = map utf8_encode (flat_map (fun rg => record_texts (fst rg) ++ snd rg) recs) ->
+  exists gs, L = flat_map group_lines gs /\ Forall2 group_of gs recs.
+Proof.
+  induction recs as [|rg recs IH]; intros L M.
+  - destruct L; [|discriminate]. exists []. split; [reflexivity|constructor].
+  - cbn [flat_map] in M. rewrite !map_app in M.
+    apply map_eq_app in M as (L1 & L2 & -> & M1 & M2).
+    apply map_eq_app in M1 as (La & Lb & -> & Ma & Mb).
+    destruct (IH L2 M2) as (gs & -> & F).
+    exists ((La, Lb) :: gs). split; [reflexivity|]. constructor; [split; assumption|exact F].
+Qed.
+
+Lemma blank_lines_of_texts ls ts : map l_text ls = map utf8_encode ts -> forallb blank_text ts = true -> forallb is_blank ls = true.
+Proof.
+  revert ls. induction ts as [|t ts IH]; intros ls M B; destruct ls as [|l ls]; try discriminate; [reflexivity|].
+  assert (Ml : l_text l = utf8_encode t) by (cbn [map] in M; congruence).
+  assert (Mr : map l_text ls = map utf8_encode ts) by (cbn [map] in M; congruence).
+  cbn [forallb] in *. apply andb_true_iff in B as [Bt B]. rewrite (is_blank_of_text l t Ml), Bt. exact (IH ls Mr B).
+Qed.
+
+Lemma gaps_ok_cons rg recs : gaps_ok (rg :: recs) = true ->
+  forallb blank_text (snd rg) = true /\ (recs = [] \/ snd rg <> []) /\ gaps_ok recs = true.
+Proof.
+  destruct recs as [|rg2 recs']; cbn [gaps_ok]; intros G.
+  - repeat split; [exact G|left; reflexivity].
+  - apply andb_true_iff in G as [G G2]. apply andb_true_iff in G as [G N]. repeat split; try assumption.
+    right. destruct (snd rg); [discriminate|discriminate].
+Qed.
+
+Lemma groups_ok_of gs recs : Forall2 group_of gs recs ->
+  forallb (fun rg => wf_record (fst rg)) recs = true -> gaps_ok recs = true -> groups_ok gs = true.
+Proof.
+  induction 1 as [|g rg gs recs [Hs Hg] F IH]; intros W G; [reflexivity|].
+  cbn [forallb] in W. apply andb_true_iff in W as [Wr W].
+  destruct (gaps_ok_cons rg recs G) as (Gb & Gn & G').
+  specialize (IH W G').
+  assert (Hg1 : forall b, (b = true \/ snd g <> []) -> group_ok b g = true).
+  { intros b Hb. unfold group_ok.
+    rewrite (sig_not_blank (fst rg) (fst g) Wr Hs), (blank_lines_of_texts _ _ Hg Gb).
+    destruct (fst g) as [|l r] eqn:E; [unfold record_texts in Hs; discriminate|]. cbn [length Nat.eqb negb andb].
+    destruct Hb as [-> | Hb]; [reflexivity|]. destruct (snd g); [congruence|]. cbn [length Nat.eqb negb]. apply orb_true_r. }
+  destruct gs as [|g2 gs'].
+  - cbn [groups_ok]. apply Hg1. left. reflexivity.
+  - change (groups_ok (g :: g2 :: gs')) with (group_ok false g && groups_ok (g2 :: gs')). rewrite IH, andb_true_r.
+    apply Hg1. right. destruct Gn as [-> | Gn]; [inversion F|].
+    intros E. apply Gn. rewrite E in Hg. destruct (snd rg); [reflexivity|discriminate].
+Qed.
+
+(* every block parses to the record it was written from *)
+Lemma parse_blocks_groups gs recs : Forall2 group_of gs recs ->
+  forallb (fun rg => wf_record (fst rg)) recs = true -> gaps_ok recs = true ->
+  forall p head rs, forallb is_blank head = true ->
+  parse_blocks (expect_blocks p head gs) rs [] = Ok (rs ++ map (fun rg => denote_record (fst rg)) recs, []).
+Proof.
+  induction 1 as [|g rg gs recs [Hs Hg] F IH]; intros W G p head rs Hh.
+  - cbn [expect_blocks parse_blocks map]. rewrite app_nil_r. reflexivity.
+  - cbn [forallb] in W. apply andb_true_iff in W as [Wr W].
+    destruct (gaps_ok_cons rg recs G) as (Gb & _ & G').
+    cbn [expect_blocks parse_blocks].
+    rewrite (parse_record_spec (fst rg) {| b_preceding := p; b_lines := head ++ fst g ++ snd g |} head (fst g) (snd g) Wr eq_refl Hh (blank_lines_of_texts _ _ Hg Gb) Hs).
+    rewrite (IH W G' _ [] _ eq_refl). cbn [map]. rewrite <- app_assoc. reflexivity.
+Qed.
+
+(* ================= L3: the top theorem ================= *)
+
+Theorem parse_conforming d : wf d ->
+  parse_text (render d) = Ok (Parsed (denote d) (blocks_of (render d))).
+Proof.
+  intros W. pose proof (doc_texts_ok d W) as T.
+  pose proof W as W'. unfold wf, wf_doc in W'. apply andb_true_iff in W' as [W' U]. apply andb_true_iff in W' as [W' G].
+  apply andb_true_iff in W' as [Wl Wr].
+  unfold parse_text, blocks_of, render.
+  rewrite (lines_of_text_of_lines (doc_lines d)) by (apply lines_ok_attach; assumption).
+  pose proof (map_l_text_attach (do_crlf d) (do_final_newline d) (doc_texts d) 0) as M. fold (doc_lines d) in M.
+  unfold doc_texts in M. rewrite map_app in M. apply map_eq_app in M as (Llead & L2 & EL & Ml & M2).
+  destruct (split_groups (do_records d) L2 M2) as (gs & -> & F).
+  rewrite EL. unfold blocks_of_lines.
+  assert (Hlead : forallb is_blank Llead = true) by (apply (blank_lines_of_texts _ _ Ml Wl)).
+  rewrite (blocks_fuel_groups gs (groups_ok_of gs _ F Wr G) _ 0 Llead Hlead (le_n _)).
+  unfold parse_lines_blocks. rewrite (parse_blocks_groups gs _ F Wr G 0 Llead [] Hlead).
+  reflexivity.
 Qed.
